@@ -51,25 +51,28 @@ var gcRoots = []string{"fromCtyNumber", "fromCtyBool", "fromCtyString"}
 type gcShape int
 
 const (
-	gcBool  gcShape = iota
-	gcInt           // int
-	gcI64           // int64
-	gcU64           // uint64
-	gcConst         // untyped integer constant
-	gcF64           // float64
-	gcF32           // float32
-	gcAcc           // big.Accuracy
-	gcKind          // reflect.Kind
-	gcNum           // *big.Float
-	gcBigInt        // *big.Int
-	gcGoTy          // reflect.Type
-	gcNamed         // a package-level reflect.Type variable
-	gcRV            // a reflect.Value other than the target
-	gcTarget        // the target reflect.Value (parameter)
-	gcVal           // cty.Value
-	gcPath          // cty.Path (erased)
-	gcStr           // string
-	gcNil           // the literal nil
+	gcBool   gcShape = iota
+	gcInt            // int
+	gcI64            // int64
+	gcU64            // uint64
+	gcConst          // untyped integer constant
+	gcF64            // float64
+	gcF32            // float32
+	gcAcc            // big.Accuracy
+	gcKind           // reflect.Kind
+	gcNum            // *big.Float
+	gcBigInt         // *big.Int
+	gcGoTy           // reflect.Type
+	gcNamed          // a package-level reflect.Type variable
+	gcRV             // a reflect.Value other than the target
+	gcTarget         // the target reflect.Value (parameter)
+	gcVal            // cty.Value
+	gcPath           // cty.Path (erased)
+	gcStr            // string
+	gcNil            // the literal nil
+	gcCtyTy          // cty.Type (d18b)
+	gcTyList         // []cty.Type (d18b)
+	gcField          // target.Field(i): a field of the target, decoded in place (d18b)
 )
 
 var gcShapeNames = map[gcShape]string{gcBool: "bool", gcInt: "int", gcI64: "int64", gcU64: "uint64", gcConst: "untyped constant",
@@ -101,6 +104,10 @@ func gcLeanType(sh gcShape) string {
 		return "Value"
 	case gcStr:
 		return "String"
+	case gcCtyTy:
+		return "Ty"
+	case gcTyList:
+		return "List Ty"
 	}
 	panic("gcLeanType")
 }
@@ -228,6 +235,7 @@ type gcUnit struct {
 	text       string
 	pos        string
 	inProgress bool
+	hasRec     bool // d18b: takes the recursive call fromCtyValue as its first parameter `rec_`
 }
 
 type gcTr struct {
@@ -263,6 +271,10 @@ type gcCtx struct {
 	u      *gcUnit
 	target string // Go name of the target parameter
 	nk     int
+	inLoop int               // d18b: depth of `for … range` bodies being translated
+	fields map[string]string // d18b: Go name of a `target.Field(e)` variable ↦ the Lean index expression
+	views  []gcView          // d18b: views of the target (index 0 = the target itself)
+	vvars  map[string]int    // d18b: Go name of a view variable ↦ its view
 }
 
 type gcV struct {
@@ -303,9 +315,16 @@ func (t *gcTr) translate(name string, fd *ast.FuncDecl) *gcUnit {
 	}
 	u := &gcUnit{name: name, inProgress: true}
 	t.units[name] = u
-	c := &gcCtx{t: t, u: u}
+	c := &gcCtx{t: t, u: u, fields: map[string]string{}, vvars: map[string]int{}}
 	en := gcEnv{}
 	var lparams []string
+	if gcRecFuncs[name] {
+		u.hasRec = true
+		lparams = append(lparams, "(rec_ : GoctyGo.Rec)")
+	}
+	if gcOrdFuncs[name] {
+		lparams = append(lparams, "(ord_ : List String → List String)")
+	}
 	for _, f := range fd.Type.Params.List {
 		sh := gcTypeShape(f.Type, src(f.Type))
 		if len(f.Names) == 0 {
@@ -480,6 +499,9 @@ func (c *gcCtx) stmts(list []ast.Stmt, en gcEnv, k func(gcEnv) string) string {
 	if len(list) == 0 {
 		return k(en)
 	}
+	if out, ok := c.shapeStmts(list, en, k); ok { // d18b (translate_gocty_shape.go)
+		return out
+	}
 	s, rest := list[0], list[1:]
 	next := func(e gcEnv) string { return c.stmts(rest, e, k) }
 	noRest := func() {
@@ -562,7 +584,7 @@ func (c *gcCtx) stmts(list []ast.Stmt, en gcEnv, k func(gcEnv) string) string {
 		bs, v := c.expr(call.Args[0], en)
 		arg := c.coerce(call.Args[0], v, p.args[0])
 		c.use(p.lean, "reflect.Value."+sel.Sel.Name)
-		bs = append(bs, bind{c.targetState(), fmt.Sprintf("(%s %s %s)", p.lean, gcLv(c.target), arg)})
+		bs = append(bs, bind{c.targetState(), c.lifted(en, fmt.Sprintf("(%s %s %s)", p.lean, c.curTy(en), arg))})
 		return wrap(bs, next(en))
 
 	case *ast.ReturnStmt:
@@ -800,6 +822,9 @@ func (c *gcCtx) equal(n ast.Node, a, b gcV) string {
 	case a.sh == b.sh && (a.sh == gcKind || a.sh == gcAcc || a.sh == gcStr):
 	case a.sh == gcBool && b.sh == gcBool:
 		return "(" + a.e + " == " + b.e + ")"
+	case a.sh == gcCtyTy && b.sh == gcCtyTy: // d18b: == on cty.Type values (primitive types only)
+		c.use("GoctyGo.tyIs", "== on cty.Type")
+		return "(GoctyGo.tyIs " + a.e + " " + b.e + ")"
 	default:
 		dieAt(n, "comparison of %s with %s", gcShapeNames[a.sh], gcShapeNames[b.sh])
 	}
@@ -816,6 +841,10 @@ func gcPureArg(e ast.Expr) {
 		}
 	case *ast.ParenExpr:
 		gcPureArg(x.X)
+	case *ast.CallExpr:
+		if !gcPureCalls[src(e)] { // d18b: calls that were evaluated just before and can not panic
+			dieAt(e, "error argument %s", src(e))
+		}
 	case *ast.UnaryExpr:
 		if x.Op != token.SUB && x.Op != token.NOT {
 			dieAt(e, "error argument %s", src(e))
@@ -832,6 +861,9 @@ func (c *gcCtx) ret(s *ast.ReturnStmt, en gcEnv) string {
 	}
 	r := s.Results[0]
 	if id, ok := r.(*ast.Ident); ok && id.Name == "nil" {
+		if c.inLoop > 0 {
+			dieAt(s, "return nil inside a loop")
+		}
 		return "(Res.ok " + c.targetState() + ")"
 	}
 	call, ok := r.(*ast.CallExpr)
@@ -861,6 +893,9 @@ func (c *gcCtx) ret(s *ast.ReturnStmt, en gcEnv) string {
 		if _, local := en[f.Name]; local {
 			dieAt(s, "call of the local %s", f.Name)
 		}
+		if out, ok := c.givenFunc(f.Name, call, en); ok { // d18b: functions that stay in the given API
+			return out
+		}
 		u := c.t.ensure(f.Name, call)
 		if len(call.Args) != len(u.params) || call.Ellipsis.IsValid() {
 			dieAt(call, "%s called with %d arguments", f.Name, len(call.Args))
@@ -871,21 +906,33 @@ func (c *gcCtx) ret(s *ast.ReturnStmt, en gcEnv) string {
 			p := u.params[i]
 			switch p.sh {
 			case gcPath:
-				if id, ok := a.(*ast.Ident); !ok || en[id.Name] != gcPath {
+				if !gcIsPathExpr(a, en) {
 					dieAt(a, "path argument %s", src(a))
 				}
 			case gcTarget:
 				if id, ok := a.(*ast.Ident); !ok || id.Name != c.target {
 					dieAt(a, "target argument %s", src(a))
 				}
-				args = append(args, gcLv(c.target), c.targetState())
+				args = append(args, c.curTy(en), c.curState(en))
 			default:
 				b, v := c.expr(a, en)
 				bs = append(bs, b...)
 				args = append(args, c.coerce(a, v, p.sh))
 			}
 		}
-		return wrap(bs, "("+u.name+" "+strings.Join(args, " ")+")")
+		if u.hasRec {
+			if !c.u.hasRec {
+				dieAt(call, "%s needs the recursive decoder, which %s does not have", u.name, c.u.name)
+			}
+			if gcOrdFuncs[u.name] {
+				if !gcOrdFuncs[c.u.name] {
+					dieAt(call, "%s needs the map order, which %s does not have", u.name, c.u.name)
+				}
+				args = append([]string{"ord_"}, args...)
+			}
+			args = append([]string{"rec_"}, args...)
+		}
+		return wrap(bs, c.lifted(en, "("+u.name+" "+strings.Join(args, " ")+")"))
 	}
 	dieAt(s, "return %s", src(r))
 	return ""
@@ -901,6 +948,9 @@ func (c *gcCtx) expr(e ast.Expr, en gcEnv) ([]bind, gcV) {
 		if sh, ok := en[x.Name]; ok {
 			if sh == gcPath {
 				dieAt(e, "use of the erased path %s", x.Name)
+			}
+			if sh == gcTarget {
+				return nil, gcV{c.viewTyOf(x.Name, en), sh}
 			}
 			return nil, gcV{gcLv(x.Name), sh}
 		}
@@ -939,6 +989,9 @@ func (c *gcCtx) expr(e ast.Expr, en gcEnv) ([]bind, gcV) {
 		}
 		if _, local := en[id.Name]; local {
 			dieAt(e, "field selection %s", src(e))
+		}
+		if v, ok := c.shapeSelector(x); ok { // d18b
+			return nil, v
 		}
 		switch id.Name {
 		case "math":
@@ -1018,6 +1071,9 @@ func (c *gcCtx) call(call *ast.CallExpr, en gcEnv, want int) ([]bind, []gcV) {
 			dieAt(call, "%d results wanted from %s", want, src(call.Fun))
 		}
 		return bs, []gcV{v}
+	}
+	if bs, vs, ok := c.shapeCall(call, en, want); ok { // d18b (translate_gocty_shape.go)
+		return bs, vs
 	}
 	switch f := call.Fun.(type) {
 	case *ast.Ident:
@@ -1192,6 +1248,12 @@ func translateGoctyFns(repo, leanDir, hdr string) int {
 			t.translate(r, fd)
 		}
 	}
+	nOld := len(t.out)
+	apiOld := map[string]bool{}
+	for k := range t.usedAPI {
+		apiOld[k] = true
+	}
+	defer writeGoctyShapeFns(t, leanDir, hdr, nOld, apiOld) // d18b: the shape checks, second file (translate_gocty_shape.go)
 	var lb strings.Builder
 	lb.WriteString(hdr)
 	lb.WriteString("-- Translation of the scalar decoders of cty/gocty/out.go (extract/translate_gocty.go); tied to the hand-written model\n")
@@ -1215,10 +1277,10 @@ func translateGoctyFns(repo, leanDir, hdr string) int {
 	}
 	lb.WriteString("--   math.MinIntN/MaxIntN/MaxUintN ↦ their values (the Go toolchain's); reflect.<Kind> ↦ GoctyGo.Kind.k<Kind>; big.Exact/Below/Above ↦ GoctyGo.Accuracy\n")
 	lb.WriteString("import CtyModel.GoctyGo\nset_option linter.unusedVariables false\nnamespace CtyModel.Generated.GoctyFns\n\n")
-	for _, u := range t.out {
+	for _, u := range t.out[:nOld] {
 		lb.WriteString(u.text + "\n")
 	}
 	lb.WriteString("end CtyModel.Generated.GoctyFns\n")
 	writeIfChanged(filepath.Join(leanDir, "GoctyFns.lean"), lb.String())
-	return len(t.out)
+	return nOld
 }
